@@ -206,3 +206,27 @@ func Trees(thorough bool, emit func(*N)) {
 		}
 	}
 }
+
+// BigTrees: size classes. Encodings whose total size lies around the powers of two where a growing output buffer is
+// reallocated (4 KiB .. 128 KiB), as one long byte string at nesting depth 1, 2 and 3, as a long text string, and as a very
+// wide structure (many small siblings, flat and nested).
+func BigTrees(emit func(*N)) {
+	const T, U = 0x420008, 0x420069
+	sent := func() *N { return &N{Tag: 0x42000A, Type: refttlv.TTextString, S: []byte("x")} }
+	for _, l := range []int{4072, 4073, 8160, 8168, 8176, 8177, 16360, 16369, 32752, 65512, 65521, 131049} {
+		bs := &N{Tag: T, Type: refttlv.TByteString, S: bytesPattern(5, l)}
+		emit(st(U, bs))
+		emit(st(U, sent(), st(T, bs), sent()))
+		emit(st(U, st(T, st(U, sent(), bs)), sent()))
+		emit(st(U, &N{Tag: T, Type: refttlv.TTextString, S: textPattern(l)}, sent()))
+	}
+	for _, n := range []int{255, 512, 1100, 5000} {
+		var flat, nested []*N
+		for i := 0; i < n; i++ {
+			flat = append(flat, &N{Tag: T, Type: refttlv.TInteger, I: int64(i)})
+			nested = append(nested, st(T, &N{Tag: 0x42000A, Type: refttlv.TInteger, I: int64(i)}))
+		}
+		emit(st(U, flat...))
+		emit(st(U, append([]*N{sent()}, nested...)...))
+	}
+}
